@@ -115,22 +115,25 @@ Proof.
   - unfold covers, sg_contains in E. rewrite Hd in E. lia.
 Qed.
 
-Lemma new_sgroup_ok : forall c p ig t eng, existsb (fun g => covers g t eng) (rp_sgs p) = false -> 0 < rp_sgdur p -> t < MAXNANO1 ->
+Lemma new_sgroup_ok : forall c p ig t eng, existsb (fun g => covers g t eng) (rp_sgs p) = false -> 0 < rp_sgdur p ->
+  MINNANO <= t < MAXNANO1 ->
   let g := new_sgroup true c p ig t eng in
   aligned g /\ Forall (disjoint2 g) (rp_sgs p).
 Proof.
   intros c p ig t eng Hex Hd Ht g.
   set (d := rp_sgdur p) in *. set (s := trunc t d). set (e := cell_end s d).
+  set (s0 := if clampst c then Z.max s MINNANO else s).
   assert (Hs : s <= t) by (apply trunc_le; assumption).
+  assert (Hs0 : s <= s0 <= t) by (unfold s0; destruct (clampst c); lia).
   assert (He : t < e) by (unfold e, cell_end; pose proof (trunc_gt t d Hd); fold s in H; lia).
-  pose proof (clip_lo_ge (rp_sgs p) eng t s) as L1. pose proof (clip_lo_le (rp_sgs p) eng t s Hs) as L2.
+  pose proof (clip_lo_ge (rp_sgs p) eng t s0) as L1. pose proof (clip_lo_le (rp_sgs p) eng t s0 (proj2 Hs0)) as L2.
   pose proof (clip_hi_le (rp_sgs p) eng t e) as U1. pose proof (clip_hi_gt (rp_sgs p) eng t e He) as U2.
   split.
-  - intros _. cbn [g new_sgroup sg_start sg_end sg_dur]. fold d s e. split; [lia|]. split; [exact Hd|].
-    assert (E : trunc (clip_lo (rp_sgs p) eng t s) d = s).
-    { apply trunc_idem; [exact Hd | exact L1|]. pose proof (trunc_gt t d Hd). fold s in H. lia. }
+  - intros _. cbn [g new_sgroup sg_start sg_end sg_dur]. fold d s e s0. split; [lia|]. split; [exact Hd|].
+    assert (E : trunc (clip_lo (rp_sgs p) eng t s0) d = s).
+    { apply trunc_idem; [exact Hd | lia|]. pose proof (trunc_gt t d Hd). fold s in H. lia. }
     rewrite E. fold e. exact U1.
-  - apply Forall_forall. intros x Hx Hdg Hdx Hex'. cbn [g new_sgroup sg_start sg_end sg_eng sg_del] in *. fold d s e.
+  - apply Forall_forall. intros x Hx Hdg Hdx Hex'. cbn [g new_sgroup sg_start sg_end sg_eng sg_del] in *. fold d s e s0.
     destruct (not_covered _ _ _ _ Hex Hx (eq_sym Hex') Hdx) as [A|A].
     + left. apply clip_hi_bound; auto.
     + right. apply clip_lo_bound; auto.
@@ -277,7 +280,7 @@ Proof.
   - rewrite Epols. apply updf_Forall; [|exact (wf_dur _ H)]. intros x _ Q. destruct (Hkeys x) as (_ & _ & -> & _). exact Q.
 Qed.
 
-Lemma wf_create_sg : forall c db rp t eng, wf c -> t < MAXNANO1 -> wf (fst (create_sg true c db rp t eng)).
+Lemma wf_create_sg : forall c db rp t eng, wf c -> MINNANO <= t < MAXNANO1 -> wf (fst (create_sg true c db rp t eng)).
 Proof.
   intros c db rp t eng H Ht. apply wf_create_sg_gen; [exact H|]. intros p ig Eg Ecov.
   destruct (get_pol_spec _ _ _ _ Eg) as (_ & Hp & _).
@@ -299,31 +302,32 @@ Definition full_cells (p : policy) (eng : Z) : Prop :=
   forall g, In g (rp_sgs p) -> sg_del g = false -> sg_eng g = eng ->
     sg_start g = trunc (sg_start g) (rp_sgdur p) /\ sg_end g = cell_end (sg_start g) (rp_sgdur p).
 
-Lemma new_sgroup_ok_current : forall c p ig t eng, existsb (fun g => covers g t eng) (rp_sgs p) = false -> 0 < rp_sgdur p -> t < MAXNANO1 ->
-  full_cells p eng ->
+Lemma new_sgroup_ok_current : forall c p ig t eng, existsb (fun g => covers g t eng) (rp_sgs p) = false -> 0 < rp_sgdur p ->
+  MINNANO <= t < MAXNANO1 -> full_cells p eng ->
   let g := new_sgroup false c p ig t eng in aligned g /\ Forall (disjoint2 g) (rp_sgs p).
 Proof.
   intros c p ig t eng Hex Hd Ht Hfull g.
   set (d := rp_sgdur p) in *. set (s := trunc t d). set (e := cell_end s d).
+  set (s0 := if clampst c then Z.max s MINNANO else s).
   assert (Hs : s <= t) by (apply trunc_le; assumption).
+  assert (Hs0 : s <= s0 <= t) by (unfold s0; destruct (clampst c); lia).
   pose proof (trunc_gt t d Hd) as Hg. fold s in Hg.
   assert (He : t < e) by (unfold e, cell_end; lia).
   assert (Es : trunc s d = s) by (apply trunc_idem; [exact Hd | apply Z.le_refl | lia]).
+  assert (Es0 : trunc s0 d = s) by (apply trunc_idem; [exact Hd | lia | lia]).
   split.
-  - intros _. cbn [g new_sgroup sg_start sg_end sg_dur]. fold d s e. split; [lia|]. split; [exact Hd|]. rewrite Es. fold e. lia.
-  - apply Forall_forall. intros x Hx Hdg Hdx Hex'. cbn [g new_sgroup sg_start sg_end sg_eng sg_del] in *. fold d s e.
+  - intros _. cbn [g new_sgroup sg_start sg_end sg_dur]. fold d s e s0. split; [lia|]. split; [exact Hd|]. rewrite Es0. fold e. lia.
+  - apply Forall_forall. intros x Hx Hdg Hdx Hex'. cbn [g new_sgroup sg_start sg_end sg_eng sg_del] in *. fold d s e s0.
     destruct (Hfull x Hx Hdx (eq_sym Hex')) as [F1 F2]. fold d in F1, F2.
     destruct (not_covered _ _ _ _ Hex Hx (eq_sym Hex') Hdx) as [A|A].
-    + (* the old cell starts after t: it is a later cell *)
-      destruct (cells_apart s (sg_start x) d Hd (eq_sym Es) F1) as [E|[E|E]]; [lia | left; unfold e, cell_end; lia | lia].
-    + (* the old cell ends at or before t *)
-      destruct (cells_apart s (sg_start x) d Hd (eq_sym Es) F1) as [E|[E|E]].
+    + destruct (cells_apart s (sg_start x) d Hd (eq_sym Es) F1) as [E|[E|E]]; [lia | left; unfold e, cell_end; lia | lia].
+    + destruct (cells_apart s (sg_start x) d Hd (eq_sym Es) F1) as [E|[E|E]].
       * exfalso. rewrite F2, <- E in A. fold e in A. lia.
       * exfalso. rewrite F2 in A. unfold cell_end in A. lia.
       * right. rewrite F2. unfold cell_end. lia.
 Qed.
 
-Lemma wf_create_sg_current : forall c db rp t eng, wf c -> t < MAXNANO1 ->
+Lemma wf_create_sg_current : forall c db rp t eng, wf c -> MINNANO <= t < MAXNANO1 ->
   (forall p, get_pol c db rp = Some p -> full_cells p eng) ->
   wf (fst (create_sg false c db rp t eng)).
 Proof.
